@@ -11,6 +11,7 @@
 #include <covfie/core/backend/primitive/array.hpp>
 #include <covfie/core/backend/primitive/identity.hpp>
 #include <covfie/core/backend/transformer/nearest_neighbour.hpp>
+#include <covfie/core/backend/transformer/morton.hpp>
 #include <covfie/core/backend/transformer/strided.hpp>
 #include <covfie/core/field.hpp>
 #include <covfie/core/field_view.hpp>
@@ -190,27 +191,46 @@ struct Ident {
 };
 
 // ---------------------------------------------------------------- array-backed
-template <typename R, std::size_t N>
+// ORD: the storage order beneath the interpolator -- 0 row-major, 1 Morton (pdep path where the build has BMI2), 2 Morton (shift/or path)
+template <typename R, std::size_t N, int ORD = 0>
 struct Arr {
-    using backend_t = cb::nearest_neighbour<cb::strided<al::alias_t<std::size_t, N>, cb::array<cv::float1>>, al::alias_t<R, N>>;
+    using idx_d = al::alias_t<std::size_t, N>;
+    using order_t = std::conditional_t<ORD == 0, cb::strided<idx_d, cb::array<cv::float1>>,
+                                       std::conditional_t<ORD == 1, cb::morton<idx_d, cb::array<cv::float1>, true>, cb::morton<idx_d, cb::array<cv::float1>, false>>>;
+    using backend_t = cb::nearest_neighbour<order_t, al::alias_t<R, N>>;
     using field_t = covfie::field<backend_t>;
-    using strided_t = typename backend_t::backend_t;
+    using strided_t = order_t;
 
     static void run(vh::Rng & rng, bool thorough)
     {
-        std::string name = std::string("nn<strided<array>>,N=") + std::to_string(N) + "," + vh::tn<R>() + ">";
+        std::string name = std::string(ORD == 0 ? "nn<strided<array>>,N=" : ORD == 1 ? "nn<morton<array>,use_bmi2>,N=" : "nn<morton<array>,portable>,N=") + std::to_string(N) + "," + vh::tn<R>() + ">";
         if (!vh::selected(name)) return;
         const R inf = std::numeric_limits<R>::infinity();
         unsigned nf = thorough ? 40 : 8;
+        if (ORD != 0) nf = thorough ? 12 : 4;
         for (unsigned fidx = 0; fidx < nf; ++fidx) {
             covfie::utility::nd_size<N> ext;
             uint64_t prod = 1;
             for (std::size_t k = 0; k < N; ++k) {
                 ext[k] = 1 + rng.below(N == 1 ? 300 : N == 2 ? 40 : 12);
+                if (ORD != 0 && fidx == 0) {
+                    // one elongated field per instantiation: axis indices beyond 16 (N = 4), 128 (N = 3), 256 (N <= 2)
+                    static const std::size_t big[4][4] = {{1500, 0, 0, 0}, {300, 5, 0, 0}, {2, 130, 3, 0}, {17, 2, 3, 18}};
+                    ext[k] = big[N - 1][k];
+                }
                 prod *= ext[k];
             }
             vh::set_case("%s extents=%s", name.c_str(), vh::jarr(ext, N).c_str());
-            field_t f(covfie::make_parameter_pack(std::monostate{}, typename strided_t::configuration_t(ext)));
+            uint64_t side = 1, mlen = 1;
+            for (std::size_t k = 0; k < N; ++k)
+                while (side < ext[k]) side *= 2;
+            for (std::size_t k = 0; k < N; ++k) mlen *= side;
+            field_t f = [&]() {
+                if constexpr (ORD == 0)
+                    return field_t(covfie::make_parameter_pack(std::monostate{}, typename strided_t::configuration_t(ext)));
+                else
+                    return field_t(covfie::make_parameter_pack(std::monostate{}, typename strided_t::configuration_t(ext), covfie::utility::nd_size<1>{mlen}));
+            }();
             {
                 // unique id per cell, written through the storage-order layer beneath the interpolator
                 typename strided_t::non_owning_data_t lv(f.backend().get_backend());
@@ -358,6 +378,8 @@ int main(int argc, char ** argv)
     Arr<float, 1>::run(rng, th);
     Arr<float, 2>::run(rng, th);
     Arr<float, 3>::run(rng, th);
+    Arr<float, 2, 1>::run(rng, th);
+    Arr<float, 4, 2>::run(rng, th);
     which_cell<float, float, 1>(rng, th ? 60 : 12, th ? 4000 : 800);
     which_cell<float, unsigned char, 2>(rng, th ? 60 : 12, th ? 4000 : 800);
     which_cell<float, double, 3>(rng, th ? 60 : 12, th ? 4000 : 800);
@@ -372,6 +394,9 @@ int main(int argc, char ** argv)
     Arr<double, 1>::run(rng, th);
     Arr<double, 2>::run(rng, th);
     Arr<double, 3>::run(rng, th);
+    Arr<double, 2, 2>::run(rng, th);
+    Arr<double, 3, 1>::run(rng, th);
+    Arr<double, 4, 1>::run(rng, th);
     which_cell<double, float, 1>(rng, th ? 60 : 12, th ? 4000 : 800);
     which_cell<double, unsigned char, 1>(rng, th ? 60 : 12, th ? 4000 : 800);
     which_cell<double, short, 2>(rng, th ? 60 : 12, th ? 4000 : 800);
